@@ -341,4 +341,33 @@ theorem compactL0_table (needLevel : Bool) (l0 l1 : List Nat) (newIdx : Nat) (wf
   cases needLevel <;> cases wf <;> simp only [a1, a0, r0, r1, o0, o1, Bool.false_eq_true, ↓reduceIte, List.nil_append, List.length_append,
     List.append_assoc, List.cons_append] <;> simp
 
+/-- the translated `writeTable`: a table file reaches its name only by the last step, a rename of a temporary file that was
+    created, written, fsynced and closed, in this order, with every one of these steps successful; a failure of any step
+    returns an error and performs no rename -/
+theorem writeTable_table (cf wf sf clf rf : Bool) :
+    GenLevel.writeTable cf wf sf clf rf [] =
+      if cf then (false, ["create tmp"])
+      else if wf then (false, ["create tmp", "write tmp", "close tmp (after an error)"])
+      else if sf then (false, ["create tmp", "write tmp", "fsync tmp", "close tmp (after an error)"])
+      else if clf then (false, ["create tmp", "write tmp", "fsync tmp", "close tmp"])
+      else (!rf, ["create tmp", "write tmp", "fsync tmp", "close tmp", "rename tmp -> name"]) := by
+  cases cf <;> cases wf <;> cases sf <;> cases clf <;> cases rf <;> rfl
+
+/-- whatever fails, a rename is the last event and is preceded by a successful write and fsync of the same temporary file -/
+theorem writeTable_rename_after_sync (cf wf sf clf rf : Bool) (h : "rename tmp -> name" ∈ (GenLevel.writeTable cf wf sf clf rf []).2) :
+    (GenLevel.writeTable cf wf sf clf rf []).2 = ["create tmp", "write tmp", "fsync tmp", "close tmp", "rename tmp -> name"] ∧
+      cf = false ∧ wf = false ∧ sf = false ∧ clf = false := by
+  revert h
+  cases cf <;> cases wf <;> cases sf <;> cases clf <;> cases rf <;> decide
+
+/-- the translated `flushToL0`: under the manager's lock, the filter and the table are built from all the entries given, the
+    table is named `maxLevelIdx(0)+1`, its handle goes to the back of L0 (the newest end) and the file is then published by
+    `writeTable` under that same name; nothing else happens -/
+theorem flushToL0_table (noLevel : Bool) (newIdx : Nat) (wf : Bool) :
+    GenLevel.flushToL0 noLevel newIdx wf [] =
+      (!wf, [("lm.mu.Lock", 0), ("filter.Build(all entries)", 0), ("table.Build(all entries)", 0)] ++
+        (if noLevel then [("new level", 0)] else []) ++
+        [("name := maxLevelIdx(L0)+1", newIdx), ("PushBack L0", newIdx), ("writeTable L0", newIdx)]) := by
+  cases noLevel <;> cases wf <;> rfl
+
 end LevelTie
